@@ -123,9 +123,9 @@ ExpDiff(t, s) == RampZ(SortByAddr(ZipR(TakeR(t, LenR(s)), s)))
 Splice(c, at, s) == TakeR(c, at) \o s \o DropR(c, at + LenR(s))
 
 (* ------------------------------- operation classes and result rules -------------------- *)
-ReaderOps   == {"read", "read_obj", "read_to", "read_to_at", "read_exact_to"}
+ReaderOps   == {"read", "read_obj", "read_exact", "read_to", "read_to_at", "read_exact_to"}
 WriterOps   == {"write", "write_vectored", "write_all", "write_obj", "write_from", "write_from_at", "write_all_from"}
-ExactOps    == {"read_obj", "read_exact_to", "write_all", "write_obj", "write_all_from"}
+ExactOps    == {"read_obj", "read_exact", "read_exact_to", "write_all", "write_obj", "write_all_from"}
 FileSrcOps  == {"write_from", "write_from_at", "write_all_from"}
 FileSinkOps == {"read_to", "read_to_at", "read_exact_to"}
 CursorOps   == {"write_from", "write_all_from", "read_to", "read_exact_to"}   \* move the file cursor
